@@ -184,7 +184,7 @@ def dist_worker(case):
         import traceback
 
         res["error"] = f"{type(e).__name__}: {e}"
-        res["traceback"] = traceback.format_exc()[-1200:]
+        res["traceback"] = traceback.format_exc()[-4000:]
     finally:
         shutil.rmtree(out, ignore_errors=True)
     return res
@@ -198,6 +198,20 @@ RULE = ("Part A: real runs of both samplers (standard and INS matrices) with the
         "distribution cell whose statistics were computed; distinct by cell and seed.")
 
 
+def raised_inside_populate(tb):
+    """True when the exception left a proposal's populate (frames of nessai/proposal/*.py named populate / populate_*): the pool was not produced."""
+    lines = [l.strip() for l in (tb or "").splitlines() if l.strip().startswith("File ")]
+    return any("/nessai/proposal/" in l and ", in populate" in l for l in lines)
+
+
+def post(chk, case, res, small, error_key=None):
+    """A run in which building the pool itself raises refutes the pool-size clause (no pool of the requested size was produced); other exceptions stay outside C09."""
+    if error_key and raised_inside_populate(res.get("traceback")):
+        chk.violation(f"C09:populate-raised:{error_key}", f"{case['name']}: {res['error']}", small)
+        return True
+    return False
+
+
 def main():
     chk = Check("C09", "exploration")
     assert_repo()
@@ -206,7 +220,7 @@ def main():
         c["outdir"] = os.path.join(chk.scratch, "replay")
         print(dist_worker(c))
         return
-    run_matrix(chk, props=("C09",), deciding=["C09.populate", "C09.draw", "C09.latent_contour_checks"], rule=RULE, finish=False)
+    run_matrix(chk, props=("C09",), deciding=["C09.populate", "C09.draw", "C09.latent_contour_checks"], rule=RULE, finish=False, post=post)
     if chk.replay_case:
         return
     run_matrix(chk, props=("C09",), sampler="ins", timeout=240, deciding=["C03.sample_set_checks"], rule=RULE, finish=False)
@@ -226,6 +240,10 @@ def main():
     worst = None
     for c, r in zip(cases, res):
         small = {k: v for k, v in c.items() if k not in ("outdir", "_timeout")}
+        if r.get("error") and raised_inside_populate(r.get("traceback")):
+            chk.violation(f"C09:populate-raised:{r['error'].split(':')[0]}", f"distribution cell {c['name']}: {r['error']}", small)
+            chk.case_done()
+            continue
         if "stats" not in r or r.get("error"):
             chk.note_inconclusive(f"distribution cell {c['name']}: {str(r.get('error') or r)[:300]} {r.get('traceback', '')[-300:]}")
             chk.case_done()
